@@ -223,9 +223,16 @@ def cli(x, p):
     files = {'/w/a.v2.p8': cart_text(11), '/w/b.p8': cart_text(23),
              '/w/m.lua': b'v=99\n', '/w/notes.txt': b'hello'}
     prev = None
+    broken = False
     if out_exists:
         prev = cart_text(41, label=True)
         files['/w/out.p8'] = prev
+        if p.get('broken_out') and x.bool('out_code_broken'):
+            # OUT as saved from the editor in the middle of an edit: its own
+            # code does not parse.  The build may refuse it, but it must not
+            # drop OUT's other sections.
+            broken = True
+            files['/w/out.p8'] = prev.replace(b'v=41\n', b'x = = 1\n')
     argv = ['build']
     expected = {}
     will_fail = False
@@ -282,6 +289,11 @@ def cli(x, p):
                     fs.files.get(out_name) == files.get(out_name)))
         return
     x.tag('ok')
+    if broken and (exc is not None or rc != 0):
+        x.tag('refused: OUT does not load')
+        x.check('a refused build leaves OUT untouched',
+                fs.files.get('/w/out.p8') == files['/w/out.p8'])
+        return
     x.check('build succeeds', And(exc is None, rc == 0),
             info=repr((rc, exc))[:160])
     if exc is not None or rc != 0:
@@ -299,6 +311,8 @@ def cli(x, p):
     carts['prev'] = load(prev) if prev is not None else carts['empty']
     for sec in SECTIONS:
         e = expected[sec]
+        if sec == 'lua' and broken and e == 'prev':
+            continue
         if sec == 'lua':
             want = b'v=99\n' if e == 'luafile' else \
                 b''.join(carts[e].lua.to_lines())
@@ -385,7 +399,7 @@ HARNESSES = [
             thorough=[dict(Q, free=list(SECTIONS), _budget=3000)]),
     Harness('twice', twice, quick=[Q]),
     Harness('cli', cli,
-            quick=[dict(Q, free=['lua', 'gfx']),
+            quick=[dict(Q, free=['lua', 'gfx'], broken_out=True),
                    dict(Q, free=['gff', 'map'], faults=FAULTS),
                    dict(Q, free=['sfx', 'music'])],
             thorough=[dict(Q, free=['lua', 'gfx', 'map'], faults=FAULTS,
